@@ -48,6 +48,9 @@ CHECKS = {
  "C19": ("runtime monitor: the text route as model for the DOM route (to_value vs parse(to_string), from_value vs from_str) with the documented failure table implemented literally; reference tree equality as oracle for ==, symmetry, member-order and construction-route insensitivity and primitive comparisons; ASan",
          "Exploration over 60k (quick) generated values driving every Serializer method, 31 typed targets x matching texts, 50k document pairs. Two known findings are matched by computed signatures (F8 duplicate-key asymmetry, F15 f32 widening); any other difference fails.",
          "Trusted: harness recogniser; the F15 classification re-serialises the value with every f32 widened and requires exact DOM equality."),
+ "C20": ("runtime monitor: every Err from ~40 parse/lookup/stream/iterator entry points is checked against the input (offset <= len, line/column recomputed from the offset with the crate's convention, displayable, category rule) plus a latch check (3 further polls) on streams and iterators; ASan",
+         "Exploration: every truncation and every 1-byte corruption of 600 (quick) multi-line documents, 40k mutated documents (half multi-line), token sequences; ~12M judged results in quick.",
+         "Trusted: harness position recomputation. Position-less errors (line 0) are tolerated only for the TypeUnmatched category (serde creates them after the deserializer returned, as in serde_json); consequence: a change that merely drops a position is not detected, a wrong position is."),
  "C02": ("differential runtime monitor: independent RFC 8259 recogniser as accept/reject oracle over enumerated token sequences and mutated documents; ASan build",
          "Exploration: every listed entry point x carrier is executed on all token sequences up to the bound and on seeded generated/mutated documents; an independent recogniser decides what must be accepted. Held on the cases observed, not a proof over all byte strings.",
          "Trusted: the harness recogniser (cross-checked against serde_json), rustc, ASan runtime. Depth is capped at 64 so the permitted nesting-limit rejection never explains a verdict."),
